@@ -35,7 +35,7 @@ for c in CHECKS:
         "technique": c["technique"],
     })
 out = os.path.join(os.path.dirname(os.path.dirname(os.path.abspath(__file__))), "MANIFEST.json")
-json.dump(man, open(out, "w"), indent=1)
+man["checks"].sort(key=lambda c: c["property_id"]); json.dump(man, open(out, "w"), indent=1)
 print("wrote", out, len(man["checks"]), "checks,", len(NOT_APPLICABLE), "not_applicable")
 try:
     import jsonschema
